@@ -4,6 +4,8 @@
 //verif:assume appends happen at solver-chosen non-decreasing seconds (steps of 0, 1 or 5 s); listing universe: entries stamped from-token-time minus {1201, 1200, 1199, 600, 0} s and plus 1 s, each present or absent, max 1..7; entries are read from the store in one read with EOF, in one read followed by a separate EOF, or byte by byte
 //verif:cover VerifC19Tokens same-second later-second
 //verif:cover VerifC19ListTokens look-back-boundary truncated-by-max
+//verif:assume append under a fault: one transient fault at a solver-chosen store call of an append (token generator touch / attribute read, entry write), followed by a fault-free append a second later
+//verif:cover VerifC19AddFaults append-failed
 //verif:cover VerifC19ListEntries multi-read get-fails empty-payload
 //verif:cover VerifC19AppendThenList appended
 package wal
@@ -80,6 +82,53 @@ func VerifC19Tokens() {
 		if o.Op == "put" {
 			vAssert(o.NoOverw, "entries-are-written-create-if-absent")
 		}
+	}
+}
+
+// VerifC19AddFaults: an append hit by one transient store fault reports the failure and leaves no entry behind, or
+// has stored its entry under the token it returns; the next append works and gets a later token.
+func VerifC19AddFaults() {
+	vBudget(50000000)
+	clk := &vClock{now: vT0}
+	mut, wl := vWalStores(clk)
+	w := New(mut, wl, Logger(zap.NewNop()))
+	ctx := context.Background()
+	k := vInt("faultAt", 1, 6)
+	n, hit := 0, false
+	wrap := func(inner func(op, key string) error) func(op, key string) error {
+		return func(op, key string) error {
+			n++
+			if n == k {
+				hit = true
+				return errVFault
+			}
+			if inner != nil {
+				return inner(op, key)
+			}
+			return nil
+		}
+	}
+	mut.fail, wl.fail = wrap(mut.fail), wrap(nil)
+	clk.now += 3
+	tok1, err1 := w.Add(ctx, "first")
+	vAssume(hit) // the fault fell into the first append
+	n = 1000     // no further fault
+	if err1 != nil {
+		vCover("append-failed")
+		vAssert(len(wl.data) == 0, "failed-append-leaves-no-entry")
+	} else {
+		b, ok := wl.data[tok1]
+		vAssert(ok && string(b) == "first" && len(wl.data) == 1, "entry-stored-under-its-token")
+	}
+	clk.now++
+	tok2, err2 := w.Add(ctx, "second")
+	vAssert(err2 == nil, "append-after-a-failed-one-succeeds")
+	b, ok := wl.data[tok2]
+	vAssert(ok && string(b) == "second", "entry-stored-under-its-token")
+	k2, perr := ksuid.Parse(tok2)
+	vAssert(perr == nil && k2.Time().Unix() == clk.now, "token-carries-the-time-of-its-own-append")
+	if err1 == nil {
+		vAssert(tok1 < tok2, "token-of-a-later-second-sorts-later")
 	}
 }
 
